@@ -73,8 +73,7 @@ theorem convert_encode_values (t : TypeId) (e : Exp) (hi : intsOk e = true) :
 /-- One round trip reaches a fixed point of the JSON side (second conversion
 changes nothing): the analogue of "formatting the regenerated source again
 gives the same text". -/
-theorem roundtrip_stable (t : TypeId) (j : J) (e e' : Exp)
-    (h : convert t j = some e) (h' : convert t (encode e) = some e') :
+theorem roundtrip_stable (t : TypeId) (e e' : Exp) (h' : convert t (encode e) = some e') :
     encode e' = encode e := by
   rw [encode_convert t (encode e) e' h', normJ_encode]
 
@@ -102,21 +101,62 @@ theorem split_status_roundtrip (s : Bool) (t : TypeId) (j : J) (a : Arg)
       | some v =>
         simp only [hf, Option.map_eq_some_iff] at h
         obtain ⟨e, he, rfl⟩ := h
-        simp [dataOfBinding, Arg.isSplit, encodeArg, canonArg, hf, encode_convert t v e he]
+        simp [dataOfBinding, Arg.isSplit, encodeArg, canonArg, hf, encode_convert _ v e he]
 
-/-- Split status survives call → JSON → call: a (split or plain) binding whose
-value is well-typed at the type used for conversion is rebuilt with the same
-split status and the same value (up to float normalisation). -/
+/-- Split status survives call → JSON → call: a plain binding well-typed at the
+parameter's type `t`, or a split binding whose operand is well-typed at the
+collection type over `t` (`T[]` for an array operand, `map<T>` for a map
+operand), is rebuilt with the same split status and the same value (up to
+float normalisation). -/
 theorem binding_roundtrip (t : TypeId) (a : Arg)
-    (hw : wt t.base t.arrayDim t.mapDim a.value = true) (hi : intsOk a.value = true) :
+    (hw : match a with
+      | .plain e => wt t.base t.arrayDim t.mapDim e = true
+      | .split e => wt (collectionType t e).base (collectionType t e).arrayDim
+          (collectionType t e).mapDim e = true)
+    (hi : intsOk a.value = true) :
     buildBinding (dataOfBinding a).1 t (dataOfBinding a).2 =
       some (match a with | .plain e => .plain (normE e) | .split e => .split (normE e)) := by
   cases a with
   | plain e =>
     simp [dataOfBinding, Arg.isSplit, encodeArg, buildBinding, convert_encode t e hw hi]
   | split e =>
-    simp [dataOfBinding, Arg.isSplit, encodeArg, buildBinding, JKvs.find,
-      convert_encode t e hw hi]
+    simp only [Arg.value] at hi
+    cases e with
+    | lit l =>
+      dsimp only [collectionType] at hw
+      have := convert_encode t (.lit l) hw hi
+      simp only [dataOfBinding, Arg.isSplit, encodeArg, buildBinding, if_true, JKvs.find]
+      simp only [encode] at this ⊢
+      simp [splitSourceType, this]
+    | arr xs =>
+      dsimp only [collectionType] at hw
+      have : convert t (encode (.arr xs)) = some (normE (.arr xs)) := by
+        simp only [convert, ofJ_encode _ hi, Option.map_some, erase_normE, fix_normE,
+          fix_erase_wt_succ _ _ _ _ hw]
+      simp only [dataOfBinding, Arg.isSplit, encodeArg, buildBinding, if_true, JKvs.find]
+      simp only [encode] at this ⊢
+      simp [splitSourceType, this]
+    | map k kvs =>
+      dsimp only at hw
+      have := convert_encode (collectionType t (.map k kvs)) (.map k kvs) hw hi
+      simp only [dataOfBinding, Arg.isSplit, encodeArg, buildBinding, if_true, JKvs.find]
+      simp only [encode] at this ⊢
+      simp only [collectionType] at this
+      simp [splitSourceType, this]
+
+/-- A parameter of struct type split over a map (`x = split {"k": {a: 1}}`)
+is converted at `map<STRUCT>`: the outer literal stays a map literal and every
+value becomes a struct literal (before the repair of finding C16-N1 the outer
+literal was marked as a struct and printed with bare keys). -/
+theorem split_map_over_struct (fs : Fields) (kvs : JKvs) (a : Arg)
+    (h : buildBinding true ⟨.struct fs, 0, 0⟩ (.obj (.cons splitKey (.obj kvs) .nil)) = some a) :
+    ∃ es, ofJKvs kvs = some es ∧ a = .split (.map false (fixVals (.struct fs) 0 0 es)) := by
+  simp only [buildBinding, if_true, JKvs.find, splitSourceType, convert, ofJ] at h
+  cases hk : ofJKvs kvs with
+  | none => simp [hk] at h
+  | some es =>
+    simp only [hk, Option.map_some, fix, mapAction, Option.some.injEq] at h
+    exact ⟨es, rfl, by simpa using h.symm⟩
 
 /-- Whole call, JSON → bindings → JSON (`BuildCallAst` then `BuildDataForAst`):
 the regenerated invocation data is the canonical form of the input — every
@@ -150,7 +190,7 @@ array is always expressible as `x = split [...]`. -/
 theorem split_array_printable (t : TypeId) (v : J) (r : JList) (a : Arg)
     (h : buildBinding true t (.obj (.cons splitKey (.arr (.cons v r)) .nil)) = some a) :
     a.printable = true := by
-  simp only [buildBinding, if_true, JKvs.find, convert, ofJ, ofJList] at h
+  simp only [buildBinding, if_true, JKvs.find, splitSourceType, convert, ofJ, ofJList] at h
   split at h
   · simp only [Option.map_some, fix, fixList, Option.some.injEq] at h
     subst h; rfl
